@@ -42,6 +42,9 @@ type returned struct {
 	heads  []string
 	logID  string
 	sortFn string
+	// the log had been truncated by a size-bounded merge (directly or through a merge from such a
+	// log): an unbounded load of what it published then returns a superset of its entries
+	partial bool
 }
 
 func runCrash(seed int64, n int, out *bufio.Writer, thorough bool) *crashStats {
@@ -89,8 +92,9 @@ func runCrash(seed int64, n int, out *bufio.Writer, thorough bool) *crashStats {
 		nRep := 2 + r.Intn(3)
 		nWr := 1 + r.Intn(2) // few writers: replicas often share an identity, so identical blocks arise
 		type rep struct {
-			log    *ipfslog.IPFSLog
-			writer string
+			log     *ipfslog.IPFSLog
+			writer  string
+			partial bool
 		}
 		var reps []*rep
 		for i := 0; i < nRep; i++ {
@@ -131,12 +135,33 @@ func runCrash(seed int64, n int, out *bufio.Writer, thorough bool) *crashStats {
 				mu.Lock()
 				at := len(events)
 				mu.Unlock()
-				rets = append(rets, returned{kind: "eh", c: e.GetHash(), at: at, state: als(l.GetEntries().Slice()), heads: als(l.RawHeads().Slice()), logID: l.ID})
+				rets = append(rets, returned{kind: "eh", c: e.GetHash(), at: at, state: als(l.GetEntries().Slice()), heads: als(l.RawHeads().Slice()), logID: l.ID, partial: reps[i].partial})
 			case c < 8:
 				j := r.Intn(len(reps))
-				_, _ = l.Join(reps[j].log, -1)
+				size := -1
+				if r.Intn(3) == 0 {
+					// a size-bounded merge: the log may shrink back to an earlier length
+					size = r.Intn(l.Len() + reps[j].log.Len() + 2)
+				}
+				func() {
+					defer func() { _ = recover() }()
+					_, _ = l.Join(reps[j].log, size)
+				}()
 				st.Joins++
-				shape += fmt.Sprintf("J%d.%d;", i, j)
+				shape += fmt.Sprintf("J%d.%d.%d;", i, j, size)
+				if size >= 0 || reps[j].partial {
+					reps[i].partial = true
+				}
+				if size >= 0 && l.Len() > 0 && r.Intn(2) == 0 {
+					// publish right after a bounded merge
+					if c, err := l.ToMultihash(ctx); err == nil {
+						st.Publishes++
+						mu.Lock()
+						at := len(events)
+						mu.Unlock()
+						rets = append(rets, returned{kind: "mh", c: c, at: at, state: als(l.GetEntries().Slice()), heads: als(l.RawHeads().Slice()), logID: l.ID, partial: reps[i].partial})
+					}
+				}
 			default:
 				if l.Len() == 0 {
 					continue
@@ -150,7 +175,7 @@ func runCrash(seed int64, n int, out *bufio.Writer, thorough bool) *crashStats {
 				mu.Lock()
 				at := len(events)
 				mu.Unlock()
-				rets = append(rets, returned{kind: "mh", c: c, at: at, state: als(l.GetEntries().Slice()), heads: als(l.RawHeads().Slice()), logID: l.ID})
+				rets = append(rets, returned{kind: "mh", c: c, at: at, state: als(l.GetEntries().Slice()), heads: als(l.RawHeads().Slice()), logID: l.ID, partial: reps[i].partial})
 			}
 			st.Ops++
 		}
@@ -197,7 +222,11 @@ func runCrash(seed int64, n int, out *bufio.Writer, thorough bool) *crashStats {
 		}
 		for _, rt := range rets {
 			st.Returned++
-			fmt.Fprintf(out, "R %s %s %d %s %s\n", rt.kind, al(rt.c), rt.at, lst(rt.state), lst(rt.heads))
+			pf := 0
+			if rt.partial {
+				pf = 1
+			}
+			fmt.Fprintf(out, "R %s %s %d %s %s %d\n", rt.kind, al(rt.c), rt.at, lst(rt.state), lst(rt.heads), pf)
 			for _, upto := range []int{rt.at, len(evs)} {
 				snap := mockstore.New()
 				for _, ev := range evs[:upto] {
